@@ -113,6 +113,9 @@ def build(shape, mode, eoe, dcf=None):
     p.add_argument("--lit", type=Literal["a", 1], default="a")
     p.add_argument("--any", type=Any, default=None)
     p.add_argument("--dl", type=Dict[str, List[int]], default={})
+    # options without a type hint: their texts go through load_value / load_basic with nobody converting in between
+    p.add_argument("--tags", nargs="+", default=[])
+    p.add_argument("--raw", default=None)
     if shape == "sub":
         sc = p.add_subcommands(required=False)
         # sub-parsers built the plain way: their own exit_on_error must not matter
@@ -144,7 +147,12 @@ BAD_VALUES = [
     ("init-args-not-map", '{"class_path": "verif_c03mod.Sub", "init_args": [1]}'), ("class-path-not-str", '{"class_path": 5}'),
     ("class-path-typing", '{"class_path": "typing.List"}'), ("class-name-only", "NoSuchClass"), ("deep", "[" * 40 + "]" * 40), ("unicode", "\u00e9\u4e2d\U0001f600"), ("nul", "a\x00b"),
 ]
-OPTIONS = ["i", "f", "b", "s", "l", "d", "u", "e", "p", "pos", "dc", "model", "models", "g.x", "g.y.z", "flag", "cfg",
+# texts that pass the digit heuristics of the numeric pre-check of load_value (load_basic) without being numbers, and
+# characters that str.isdigit accepts but int() does not: legal as strings, never a reason for anything but a parse error
+NUM_LIKE = [("almost-float", "1e"), ("double-minus", "--1.5"), ("inner-minus", "1-2.5"), ("bare-exponent", "e.5"), ("dot-exponent", "1.e"), ("minus-exponent", "-e1"),
+            ("superscript-digit", "\u00b2"), ("circled-digit", "\u2460"), ("minus-superscript", "-\u00b3"), ("two-exponents", "1e2e3"), ("exp-minus-only", "1e-"), ("dots", "1.2.3")]
+BAD_VALUES += NUM_LIKE
+OPTIONS = ["tags", "raw", "i", "f", "b", "s", "l", "d", "u", "e", "p", "pos", "dc", "model", "models", "g.x", "g.y.z", "flag", "cfg",
            "fn", "cb", "ty", "req", "dec", "tup", "st", "lit", "any", "dl"]
 MALFORMED_NAMES = [
     ("unknown", ["--zz=1"]), ("unknown-dotted", ["--g.zz=1"]), ("trailing-dot", ["--g.=1"]), ("leading-dot", ["--.x=1"]), ("double-dot", ["--g..x=1"]),
@@ -206,10 +214,10 @@ def productions(shape, tmp):
                 ("env:sub-bad", "parse_env", {"APP_SUBCOMMAND": "alpha", "APP_ALPHA__K": "abc"}), ("env:sub-unknown", "parse_env", {"APP_SUBCOMMAND": "zz"}),
                 ("object:sub-unknown", "parse_object", {"subcommand": "zz"}), ("object:sub-not-mapping", "parse_object", {"subcommand": "alpha", "alpha": 5}),
                 ("string:sub-unknown", "parse_string", '{"subcommand": "zz"}'), ("argv:cfg-sub-unknown", "parse_args", ['--cfg={"subcommand": "zz"}'])]
-    for opt in ("i", "l", "d", "u", "e", "p", "model", "dc", "cfg", "flag"):
-        for vl, v in BAD_VALUES[:20] + BAD_VALUES[25:31]:
+    for opt in ("i", "l", "d", "u", "e", "p", "model", "dc", "cfg", "flag", "tags", "raw"):
+        for vl, v in BAD_VALUES[:20] + BAD_VALUES[25:31] + NUM_LIKE:
             out.append((f"env:{opt}:{vl}", "parse_env", {"APP_" + opt.upper().replace(".", "__"): v}))
-    docs = [("broken-json", '{"i": '), ("broken-yaml", "i: [1,\n"), ("not-mapping-list", "[1, 2]"), ("not-mapping-scalar", "abc"), ("empty", ""), ("null", "null"),
+    docs = [("broken-json", '{"i": '), ("broken-yaml", "i: [1,\n"), ("not-mapping-list", "[1, 2]"), ("not-mapping-scalar", "abc"), ("not-mapping-almost-float", "1e"), ("not-mapping-double-minus", "--1.5"), ("not-mapping-superscript", "\u00b2"), ("empty", ""), ("null", "null"),
             ("self-alias", "l: &a [*a]\n"), ("self-alias-any", "d: &a {k: *a}\n"), ("undefined-alias", "i: *nope\n"), ("dup-anchor", "i: &a 1\nf: &a 2.0\n"), ("merge-key", "<<: {i: 2}\n"),
             ("tag", "i: !!python/object:os.system 1\n"), ("tab-indent", "g:\n\tx: 1\n"), ("bad-value", '{"i": "abc"}'), ("unknown-key", '{"zz": 1}'), ("nonstr-key", "1: 2\n"),
             ("nested-unknown", '{"g": {"zz": 1}}'), ("scalar-for-group", '{"g": 5}'), ("list-for-group", '{"g": [1]}'), ("class-bad-import", '{"model": {"class_path": "nonexistent.Mod"}}'),
@@ -269,7 +277,7 @@ def productions(shape, tmp):
     return out
 
 
-class _Timeout(Exception):
+class _Timeout(BaseException):   # not an Exception: the library's own `except Exception` clauses must not swallow it
     pass
 
 
@@ -281,8 +289,12 @@ def run_one(parser, method, payload, eoe, kw=None):
     """-> (out, usage)"""
     kw = kw or {}
     err, outb = io.StringIO(), io.StringIO()
+    # the limit is 8 s of the process's own CPU time (a parse that does not terminate spins), so that a loaded machine
+    # cannot turn a slow parse into a verdict; a generous wall-clock alarm backs it up for a parse that blocks
+    signal.signal(signal.SIGPROF, _alarm)
     signal.signal(signal.SIGALRM, _alarm)
-    signal.alarm(8)
+    signal.setitimer(signal.ITIMER_PROF, 8)
+    signal.alarm(600)
     old_limit = sys.getrecursionlimit()
     try:
         with contextlib.redirect_stderr(err), contextlib.redirect_stdout(outb):
@@ -307,6 +319,7 @@ def run_one(parser, method, payload, eoe, kw=None):
 
                 out = "ArgumentError" if type(ex) is ArgumentError or isinstance(ex, ArgumentError) else "escape:" + type(ex).__name__
     finally:
+        signal.setitimer(signal.ITIMER_PROF, 0)
         signal.alarm(0)
         sys.setrecursionlimit(old_limit)
     text = err.getvalue()
@@ -622,7 +635,7 @@ def main(argv):
         "injection patches collaborators (adapt_typehints, load_value, Path, validate, a link's compute_fn, a custom argparse action) from the harness process; the parse methods and their handlers run unmodified",
         "an input 'asks for exit 0' when argv contains --help / --print_config / a class help option; exit 0 is accepted only then",
         "exit_on_error=True must give exit status 2 with a usage text and an 'error:' line on stderr; wording is not compared",
-        "stdin is closed; each parse is limited to 8 s (a parse that does not terminate is reported as 'timeout')",
+        "stdin is closed; each parse is limited to 8 s of CPU time (a parse that does not terminate is reported as 'timeout')",
     ]
     mc = tlc.run("MC_Failures", "MC_Failures", workers=8, timeout=600, heap="4g")
     rep.add_tlc("MC_Failures", mc)
